@@ -367,3 +367,72 @@ Theorem junk_lines_independent ifs cfg l1 j l2 cls :
 Proof. intros H1 H2. apply process_lines_skip. intros c. eapply junk_line_is_identity; eassumption. Qed.
 
 End WithNet.
+
+(* ------------------------------------------------------------------ file text level *)
+(* a file is its raw lines, each followed by a newline (harness/config_drv.c write_file; a missing
+   final newline gives the same line list, see file_lines_noeol) *)
+Definition unlines (rs : list bytes) : bytes := flat_map (fun r => r ++ [ch_nl]) rs.
+
+Definition no_nl (r : bytes) : Prop := ~ In ch_nl r.
+
+Lemma split_go_line r : forall rest cur acc, no_nl r ->
+  split_go [ch_nl] true false false 0 (r ++ ch_nl :: rest) cur acc =
+  split_go [ch_nl] true false false 0 rest [] (sec_add true false false acc (rev cur ++ r)).
+Proof.
+  induction r as [|c r IH]; intros rest cur acc H.
+  - cbn [app split_go]. cbn [Nat.eqb negb andb]. change (mem ch_nl [ch_nl]) with true. cbv iota.
+    rewrite frev_rev, app_nil_r. reflexivity.
+  - cbn [app split_go]. cbn [Nat.eqb negb andb].
+    assert (mem c [ch_nl] = false) as Hc.
+    { unfold mem. simpl. rewrite orb_false_r. apply N.eqb_neq. intros ->. apply H. left. reflexivity. }
+    rewrite Hc. rewrite IH by (intros Hin; apply H; right; exact Hin).
+    cbn [rev]. rewrite <- app_assoc. reflexivity.
+Qed.
+
+(* the lines ares_sysconfig_process_buf hands to the callback: trimmed, blank ones dropped *)
+Definition trimmed_lines (rs : list bytes) : list bytes :=
+  flat_map (fun r => match rtrim (ltrim r) with [] => [] | t => [t] end) rs.
+
+Lemma sec_add_trim acc r : sec_add true false false acc r = acc ++ match rtrim (ltrim r) with [] => [] | t => [t] end.
+Proof. unfold sec_add. cbn [sec_trim andb]. destruct (rtrim (ltrim r)); [rewrite app_nil_r|]; reflexivity. Qed.
+
+Lemma split_go_unlines rs : forall acc, Forall no_nl rs ->
+  split_go [ch_nl] true false false 0 (unlines rs) [] acc = acc ++ trimmed_lines rs.
+Proof.
+  induction rs as [|r rs IH]; intros acc F.
+  - cbn [unlines flat_map split_go]. unfold sec_add. cbn. rewrite app_nil_r. reflexivity.
+  - inversion F as [|? ? Hr Frs]; subst. cbn [unlines flat_map]. rewrite <- app_assoc. cbn [app].
+    rewrite (split_go_line r _ [] acc Hr). cbn [rev app]. fold (unlines rs). rewrite IH by exact Frs.
+    rewrite sec_add_trim. cbn [trimmed_lines flat_map]. rewrite <- app_assoc. reflexivity.
+Qed.
+
+Lemma file_lines_unlines rs : Forall no_nl rs -> file_lines (unlines rs) = trimmed_lines rs.
+Proof. intros F. unfold file_lines, buf_split. rewrite split_go_unlines by exact F. reflexivity. Qed.
+
+Lemma trimmed_lines_app a b : trimmed_lines (a ++ b) = trimmed_lines a ++ trimmed_lines b.
+Proof. unfold trimmed_lines. apply flat_map_app. Qed.
+
+Section FileLevel.
+Variable nf : netfns.
+
+(* C15_junk_independent at the level of the file text: inserting a raw junk line (blank, or junk
+   after trimming) anywhere in a resolv.conf gives the same system configuration *)
+Theorem junk_file_independent ifs cfg rs1 j rs2 cls :
+  Forall no_nl rs1 -> no_nl j -> Forall no_nl rs2 ->
+  junk_class_raw j = Some cls -> proved_class cls = true ->
+  process_buf (parse_resolv_line nf ifs) cfg (unlines (rs1 ++ j :: rs2)) =
+  process_buf (parse_resolv_line nf ifs) cfg (unlines (rs1 ++ rs2)).
+Proof.
+  intros F1 Fj F2 Hj Hc. unfold process_buf.
+  rewrite !file_lines_unlines.
+  2:{ apply Forall_app. split; assumption. }
+  2:{ apply Forall_app. split; [assumption|constructor; assumption]. }
+  rewrite !trimmed_lines_app. change (j :: rs2) with ([j] ++ rs2). rewrite trimmed_lines_app.
+  cbn [trimmed_lines flat_map]. rewrite app_nil_r.
+  unfold junk_class_raw in Hj.
+  destruct (mem ch_nl j) eqn:Em; [discriminate|].
+  destruct (rtrim (ltrim j)) as [|t0 tr] eqn:Et; [reflexivity|].
+  cbn [app]. apply process_lines_skip. intros c. eapply junk_line_is_identity; eassumption.
+Qed.
+
+End FileLevel.
